@@ -384,6 +384,19 @@ def main(argv):
         ctx.oblige(False, g.what)
         ctx.violation({"broken": g.what, "detail": g.detail,
                        "note": "the named build/proof/correspondence step no longer checks"}, no_input=True)
+    if a.tier == "thorough" and ctx.gate and not SCRATCH:
+        # independent re-check of the compiled property file and everything it depends on
+        try:
+            p = sh(["timeout", "3000", "coqchk", "-silent", "-o", "-Q", "theories", "GV", "GV.Properties." + a.prop], cwd=COQ)
+            out = p.stdout + p.stderr
+            ok = p.returncode == 0 and "Axioms: <none>" in out and "type-in-type: <none>" in out \
+                and "unsafe (co)fixpoints: <none>" in out and "positivity is assumed: <none>" in out
+            ctx.coverage["coqchk"] = "ok: Axioms <none>, no type-in-type, no unsafe fixpoints, no assumed positivity" if ok else out[-1500:]
+            ctx.oblige(ok, "coqchk")
+            if not ok:
+                ctx.violation({"broken": "coqchk", "detail": out[-3000:]}, no_input=True)
+        except Exception as e:  # pragma: no cover
+            ctx.coverage["coqchk"] = "not run: %s" % e
     rc = ctx.finish(level=getattr(mod, "LEVEL", "proof"))
     print("%s %s tier=%s seed=%d evaluations=%d nontrivial=%d obligations=%d/%d wall=%.1fs" % (
         a.prop, "FAIL" if rc else "ok", a.tier, a.seed, ctx.evaluations, ctx.nontrivial,
